@@ -610,6 +610,15 @@ ConnSetBoxes(m, B) ==
   /\ Log("ConnSetBoxes", None, <<m, AscBoxes(B)>>, "OK")
   /\ UNCHANGED <<flg, sel, ro, snap, res, idle, mirror, taint>>
 
+\* a connector update that would exceed a configured limit in one of its mailboxes is refused as a whole
+ConnSetBoxesRefused(m, B) ==
+  /\ m \notin dead
+  /\ (m \in used \/ Cardinality(B) = 1)
+  /\ \E b \in B : ~HasMsg(rows[b], m) /\ ~FitsLimits(b, rows[b], uidNext[b], 1)
+  /\ wire' = Quiet
+  /\ Log("ConnSetBoxes", None, <<m, AscBoxes(B)>>, "ERR")
+  /\ UNCHANGED <<rows, uidNext, flg, used, dead, sel, ro, snap, res, q, idle, mirror, taint, ever>>
+
 \* MessageFlagsUpdated: the shared flags of m become exactly F; one update per flag that changes
 ConnSetFlags(m, F) ==
   /\ m \in used /\ F \subseteq SharedFlags
@@ -682,7 +691,7 @@ Free ==
   \/ "Move"    \in Acts /\ \E s \in Sessions, d \in Boxes : \E P \in SUBSET (1..Len(snap[s])) : CmdMove(s, P, d)
   \/ "Idle"    \in Acts /\ \E s \in Sessions : IdleBegin(s) \/ IdleDone(s)
   \/ "Deliver" \in Acts /\ \E s \in Sessions : Deliver(s)
-  \/ "ConnSetBoxes" \in Acts /\ \E m \in Msgs : \E B \in SUBSET Boxes : ConnSetBoxes(m, B)
+  \/ "ConnSetBoxes" \in Acts /\ \E m \in Msgs : \E B \in SUBSET Boxes : ConnSetBoxes(m, B) \/ ConnSetBoxesRefused(m, B)
   \/ "ConnSetFlags" \in Acts /\ \E m \in Msgs : \E F \in ConnFlagSets : ConnSetFlags(m, F)
   \/ "ConnDelete" \in Acts /\ \E m \in Msgs : ConnDelete(m)
 
@@ -818,7 +827,7 @@ RemovalBeforeReAdd ==
               ~(\E p \in 1..Len(snap[s]) : snap[s][p].m = res[s][j].m /\ snap[s][p].uid = res[s][j].uid)
 
 \* C03 -- a refused command changes nothing
-FailedIsNoop == [][last'.status = "NO" => (rows' = rows /\ flg' = flg /\ uidNext' = uidNext)]_vars
+FailedIsNoop == [][last'.status \in {"NO", "ERR"} => (rows' = rows /\ flg' = flg /\ uidNext' = uidNext /\ q' = q)]_vars
 
 \* C17
 WithinLimits == \A b \in Boxes : Len(rows[b]) <= MaxMsgs /\ uidNext[b] - 1 <= LimitUid
